@@ -212,17 +212,19 @@ def run(ctx):
     nx = F.one_body(r"^<selium::keep_alive::backoff_strategy::BackoffStrategyIter as core::iter::traits::iterator::Iterator>::next$")
     ii = F.one_body(r"^<selium::keep_alive::backoff_strategy::BackoffStrategy as core::iter::traits::collect::IntoIterator>::into_iter$")
     ctx.touch(nx, ii)
+    nx_raw = nx
+    nx = F.inlined(nx)          # private helpers that next() is split into (delay / clamp / advance) are looked through
     shape_ok = count_shape(ctx, F, nx, ii)
 
     # D1 arithmetic
-    region = F.region([nx, ii])
+    region = F.region([nx_raw, ii])
     bodies = sorted(region.values(), key=lambda b: b.path)
 
     def sub_one(site, body):
         # current_attempt - 1 cannot underflow when the count-shape invariant (>= 1) holds
-        if site.kind == "assert" and site.what == "overflow:Sub" and body is nx:
+        if site.kind == "assert" and site.what == "overflow:Sub" and (body is nx_raw or body is nx):
             det = site.extra.get("detail", {})
-            cur = flow.derived(nx, counter_locals(nx)[0], calls=())
+            cur = flow.derived(body, counter_locals(body)[0], calls=())
             if flow.const_of(det.get("b", {})) == 1 and op_local(det.get("a", {})) in cur and shape_ok:
                 return "D6: current_attempt >= 1 by the count-shape invariant (starts at 1, only +1)"
         return None
@@ -262,11 +264,12 @@ def run(ctx):
     aggs = K.aggregates(nx, NEXTA)
     ctx.floor("C13.D2.clamp.yields", len(aggs), 1)
     sw = None
+    mdc = flow.derived(nx, mdl, calls=())          # plain copies of the configured maximum (e.g. the subject of a written-out map_or)
     for i, b in enumerate(nx.blocks):
         v = flow.switch_on_variant(nx, i)
-        if v and v[1] == "core::option::Option" and v[0]["l"] in mdl | {1}:
+        if v and v[1] == "core::option::Option" and v[0]["l"] in mdc | {1}:
             p = v[0]
-            if p["l"] in mdl or [e for e in p["p"] if e != "*"] == [st, md]:
+            if p["l"] in mdc or [e for e in p["p"] if e != "*"] == [st, md]:
                 sw = (i, v)
     # equivalent idiom: max_duration.map_or(delay, |max| delay.min(max))
     alt = None
@@ -300,14 +303,38 @@ def run(ctx):
         for i2, j, pl, rv, s in nx.assigns():
             if rv["k"] == "use" and rv["op"].get("k") in ("copy", "move"):
                 p = rv["op"]["pl"]
-                if any(isinstance(e, dict) and e.get("vn") == "Some" for e in p["p"]) and (p["l"] in mdl or p["l"] == 1):
+                if any(isinstance(e, dict) and e.get("vn") == "Some" for e in p["p"]) and (p["l"] in mdc or p["l"] == 1):
                     payload.add(pl["l"])
         pv = flow.derived(nx, payload, calls=())
         mins = [c for c in nx.calls() if strip_generics(c.callee) in ("core::cmp::Ord::min", "core::cmp::Ord::clamp", "core::cmp::min") and any(op_local(a) in pv for a in c.args)]
+        # every test of the configured maximum in the body (a clamp helper inlined at several sites gives several)
+        max_sw = {}
+        for i3, b3 in enumerate(nx.blocks):
+            v3 = flow.switch_on_variant(nx, i3)
+            if v3 and v3[1] == "core::option::Option" and (v3[0]["l"] in mdc or (v3[0]["l"] == 1 and [e for e in v3[0]["p"] if e != "*"] == [st, md])):
+                max_sw[i3] = v3[2].get("None", v3[3])
+        min_bbs = {c.bb for c in mins}
+
+        def reaches_unclamped(target):
+            """is `target` reachable from the entry without passing min(.., max) and without taking the None edge of a test of the
+            maximum? (then a delay is yielded that was never compared with a configured maximum)"""
+            seen, todo = set(), [0]
+            while todo:
+                x = todo.pop()
+                if x in seen or x in min_bbs:
+                    continue
+                seen.add(x)
+                if x == target:
+                    return True
+                for y in nx.succs(x):
+                    if x in max_sw and y == max_sw[x]:
+                        continue
+                    todo.append(y)
+            return False
         for ai, j, pl, rv, s in aggs:
             via = must = False
             if mins:
-                must = flow.must_pass(nx, some_t, [ai], [c.bb for c in mins], from_is_after=False) if some_t != ai else False
+                must = not reaches_unclamped(ai)
                 dl = flow.root_local(nx, rv["ops"][dur])
                 minv = flow.derived(nx, {c.dest["l"] for c in mins}, calls=())
                 via = dl in minv or any(d[0] == "assign" and rv_locals(d[3]) & minv for d in nx.defs().get(dl, []))
@@ -320,6 +347,36 @@ def run(ctx):
     for b_ in bs:
         dflt = [c for c in b_.calls() if strip_generics(c.callee) == "core::default::Default::default" or (c.name() in ("default", "new") and "backoff_strategy" in (c.callee + (c.t.get("resolved") or "")))]
         ctx.check(not dflt, "C13.D5.builders-preserve", "builder-resets:%s" % b_.name, "BackoffStrategy::%s keeps the settings it is not about (no default()/new() state)" % b_.name, (dflt or [b_])[0].span)
+    # "follows the law when no maximum is set": no constructor, preset or Default sets a maximum of its own — the only writer of the
+    # maximum is the builder that receives it from the caller
+    SA = "selium::keep_alive::backoff_strategy::BackoffStrategyState"
+    n_aggs = 0
+    for p_, b_ in sorted(F.bodies.items()):
+        if b_.crate != "selium" or "keep_alive::backoff_strategy" not in p_ or "core::clone::Clone>::clone" in p_:
+            continue        # (a clone copies whatever maximum its original has)
+        for i, j, pl, rv, s in K.aggregates(b_, SA):
+            n_aggs += 1
+            ctx.touch(b_)
+            o = rv["ops"][md] if md < len(rv["ops"]) else None
+            r = flow.root(b_, o) if o is not None and o.get("k") in ("copy", "move") else None
+            is_none = r is not None and r[0] == "rv" and r[1]["k"] == "agg" and r[1].get("adt") == "core::option::Option" and r[1].get("variant") == "None"
+            from_arg = r is not None and r[0] == "arg"
+            ctx.check(is_none or (from_arg and b_.name.startswith("with_")), "C13.D5.presets-uncapped", "preset-sets-maximum:%s" % p_.split("backoff_strategy::")[-1],
+                      "%s builds the strategy state with no maximum delay of its own (the maximum comes only from with_max_duration)" % p_.split("selium::keep_alive::")[-1], s["span"])
+        for i, j, pl, rv, s in b_.assigns():
+            pp = [e for e in pl["p"] if e != "*"]
+            if pp[-1:] == [md] and len(pp) >= 1 and ("BackoffStrategyState" in b_.local_ty(pl["l"]) or (len(pp) >= 2 and "BackoffStrategy" in b_.local_ty(pl["l"]))):
+                src_ok = False
+                av = rv
+                if rv["k"] == "use" and rv["op"].get("k") in ("copy", "move"):
+                    r_ = flow.root(b_, rv["op"])
+                    av = r_[1] if r_[0] == "rv" else rv
+                    src_ok = r_[0] == "arg"          # an Option handed in by the caller as it is
+                if av["k"] == "agg" and av.get("variant") == "Some" and av.get("ops") and av["ops"][0].get("k") in ("copy", "move"):
+                    src_ok = flow.root(b_, av["ops"][0])[0] == "arg"
+                ctx.check(src_ok and b_.name.startswith("with_"), "C13.D5.presets-uncapped", "maximum-written:%s" % p_.split("backoff_strategy::")[-1],
+                          "%s: the maximum delay is written only by a with_* builder, from its argument" % p_.split("selium::keep_alive::")[-1], s["span"])
+    ctx.check(n_aggs >= 1, "C13.D5.presets-uncapped", "state-constructors-missing", "the constructor(s) of the strategy state were analysed (%d)" % n_aggs)
     ctx.check(len(bs) >= 3, "C13.D5.builders-preserve", "builders-missing", "the three with_* builders of BackoffStrategy were analysed (%d)" % len(bs))
     # D4 dependence signature
     sws = K.find_variant_switches(nx, STRAT)
